@@ -313,35 +313,39 @@ def _spread(lst, n):
 
 class Cube(object):
     """Index-addressable opcode-map cube of one target. `group` = number of consecutive indexes that share
-    their leading bytes (shard boundaries are multiples of it)."""
+    their leading bytes (shard boundaries are multiples of it).
+    dims["stride"] = s (default 1) restricts the completely enumerated 16-bit axis to the multiples of s
+    (a quick-tier bound: for s = 2^k the k low bits of that half-word - an operand field - stay 0)."""
 
     def __init__(self, name, dims):
         self.t = t = Target(name)
         self.name = name
         self.dims = dict(dims)
         k = t.kind
+        self.stride = st = int(dims.get("stride", 1))
+        self.nw = nw = (65536 + st - 1) // st
         if k == "fixed32":
             self.lo = LO_MENU[:dims.get("lo", 0)]
             self.hi = _spread(hi_menu(name), dims.get("hi", 0))
-            self.nA = 65536 * len(self.lo)
-            self.n = self.nA + 65536 * len(self.hi)
+            self.nA = nw * len(self.lo)
+            self.n = self.nA + nw * len(self.hi)
             self.group = 1
             self._lo_set = set(self.lo)
         elif k == "thumb":
             self.ext = THUMB_MENU[:dims["ext"]]
-            self.n = 65536 * len(self.ext)
+            self.n = nw * len(self.ext)
             self.group = len(self.ext)
         elif k == "msp430":
             self.ext = EXT_MENU[:dims["ext"]]
-            self.n = 65536 * len(self.ext)
+            self.n = nw * len(self.ext)
             self.group = len(self.ext)
         elif k == "word16":
             self.ext = LO_MENU[:dims["ext"]]
-            self.n = 65536 * len(self.ext)
+            self.n = nw * len(self.ext)
             self.group = len(self.ext)
         elif k == "sh4":
             self.ext = [None]
-            self.n = 65536
+            self.n = nw
             self.group = 1
         elif k == "x86":
             self.pre = X86_PREFIXES[t.mode][:dims["prefix"]]
@@ -357,22 +361,24 @@ class Cube(object):
         """Byte string number i, or None for a hole (an element already present at a smaller index)."""
         t = self.t
         k = t.kind
+        st = self.stride
         if k == "fixed32":
             if i < self.nA:
-                m, h = divmod(i, 65536)
-                return t.pack([(h << 16) | self.lo[m]])
-            m, l = divmod(i - self.nA, 65536)
+                m, h = divmod(i, self.nw)
+                return t.pack([((h * st) << 16) | self.lo[m]])
+            m, l = divmod(i - self.nA, self.nw)
+            l *= st
             if l in self._lo_set:
                 return None
             return t.pack([(self.hi[m] << 16) | l])
         if k == "thumb" or k == "word16":
             w, m = divmod(i, len(self.ext))
-            return t.pack([w, self.ext[m]])
+            return t.pack([w * st, self.ext[m]])
         if k == "msp430":
             w, m = divmod(i, len(self.ext))
-            return t.pack([w, self.ext[m][0], self.ext[m][1]])
+            return t.pack([w * st, self.ext[m][0], self.ext[m][1]])
         if k == "sh4":
-            return t.pack([i])
+            return t.pack([i * st])
         # x86: prefix, map, first, second, tail  (most -> least significant)
         i, ti = divmod(i, len(self.tails))
         i, si = divmod(i, len(self.second))
